@@ -257,6 +257,12 @@ def _describe(ctx: Context) -> _Source | Declined:
     if isinstance(ctx, (EFloatContext, MPBFloatContext)):
         maxval = ctx.maxval().as_real()
         neg_maxval = ctx.maxval(s=True).as_real()
+        if maxval.is_zero():
+            # every operand saturates onto a zero, whose sign the emitted
+            # fixed-point context has no bound to carry
+            return Declined(
+                'a format representing no non-zero value has nothing to lower'
+            )
         # an emitted context states one bound and mirrors it, and FPy's context
         # construction has no way to pass the other, so the two must agree
         if neg_maxval != RealFloat(s=True, x=maxval):
